@@ -337,6 +337,24 @@ def check_init(ctx, ci):
         ctx.violation(rule, fi, 'Bits.init', 'no path initialises the shared slot for the first member', fi.node.lineno, clause='f')
 
 
+def check_bits_strategies(ctx, ci):
+    """every surviving path of Bits._compile leaves Bits.pack / Bits.unpack behind .pack / .unpack
+    (a fast path that installs another object's codec bypasses the mask / shift arithmetic)"""
+    comp = ci.methods.get('_compile')
+    w = ctx.repo.walker(max_paths=ctx.max_paths)
+    seen = set()
+    for p in w.paths(comp.node, cls=ci):
+        for e in p.effects:
+            if e.kind == 'store_attr' and canon(e.obj) == 'self' and e.name in ('pack', 'unpack'):
+                t = 'self.%s = %s' % (e.name, canon(e.value))
+                if t in seen:
+                    continue
+                seen.add(t)
+                ctx.violation('R8-confinement', comp, t, 'Bits._compile replaces the bit-field %s by another codec on some path: the value is no longer reduced modulo 2^width into its own slice' % e.name, e.lineno, clause='d')
+    if not seen:
+        ctx.holds('R8-confinement', comp, 'Bits._compile installs no other pack / unpack', 'every bit field runs Bits.pack / Bits.unpack', comp.node.lineno, clause='d')
+
+
 def check(ctx):
     repo = ctx.repo
     ci = repo.cls('Bits')
@@ -348,6 +366,10 @@ def check(ctx):
     check_unpack(ctx, ci)
     check_pack(ctx, ci)
     check_init(ctx, ci)
+    # the shared Int encodes / decodes exactly (no wrapping, strict): C05 rule R1 on Int
+    from .c05 import check_codecs
+    check_codecs(ctx, repo.cls('Int'))
+    check_bits_strategies(ctx, ci)
     ctx.floor('obligations', len(ctx.obs), 18)
     from ..model import check_conf_plumbing
     check_conf_plumbing(ctx, 'R8-conf-plumbing', 'field positions')
